@@ -310,8 +310,8 @@ class C09(Property):
             "Integer, String or Dict members, started by a constructor/set/set_default/from_defaults route; arguments "
             "are plain values (valid, unadaptable, None), fresh Elements, or Elements detached earlier (pool); "
             "non-trivial = at least 3 calls changed the sequence or raised")
-    quick_n = 2500
-    thorough_n = 120000
+    quick_n = 40000
+    thorough_n = 300000
 
     def __init__(self):
         self._cache = (None, None)
